@@ -8,15 +8,15 @@ SYMX = ("symbolic execution of the real xgi code with z3-backed proxies (symx): 
         "labels/ids/counter/arguments are solver variables; every solver model replayed concretely")
 CHECKS = {
  "C01": dict(level=MC, ref="5/C01",
-   text="Inductive step decided by z3 for every Hypergraph shape within the bound, every mutator and in-place helper, with node labels, edge ids, id counter and all id arguments as unbounded solver integers: the two-way incidence relation, attribute records and a no-aliasing representation invariant hold after the call whether it returned or raised. Bounded model checking of one step from an arbitrary invariant state plus constructor base cases; histories follow by induction while states stay inside the size bound.",
+   text="Inductive step decided by z3 for every Hypergraph shape within the bound, every mutator and in-place helper, with node labels, edge ids, id counter and all id arguments as unbounded solver integers: the two-way incidence relation, attribute records and a no-aliasing representation invariant hold after the call whether it returned or raised. Bounded model checking of one step from an arbitrary invariant state plus constructor base cases; histories follow by induction while states stay inside the size bound. Invalid and unusual arguments are part of the alphabet: None in every id position, unhashable members, and edge ids that are hashable but neither numbers, strings nor tuples (frozenset, bytes).",
    note="Trusted: CPython dict/set honouring __hash__/__eq__, z3 5.1 on linear integer arithmetic, the scount stub for itertools.count, the float()/int() shadows, SymRandom for random.sample; pre-states assume the invariant and Fresh (C04). Set iteration order follows builder insertion order.",
    technique="bounded symbolic execution of the real mutators (z3), inductive step over enumerated shapes with symbolic ids"),
  "C02": dict(level=MC, ref="5/C02",
-   text="Same inductive step on DiHypergraph: every shape with each node-edge cell in {absent, tail, head, both} within the bound, every mutator, unbounded symbolic ids; tail/out and head/in agreement, no dangling ids, one attribute record each, no aliasing - after return or raise.",
+   text="Same inductive step on DiHypergraph: every shape with each node-edge cell in {absent, tail, head, both} within the bound, every mutator, unbounded symbolic ids; tail/out and head/in agreement, no dangling ids, one attribute record each, no aliasing - after return or raise. Unhashable tail/head members and frozenset/bytes edge ids are part of the alphabet (state after the raise).",
    note="As C01; pre-states assume the directed invariant and Fresh.",
    technique="bounded symbolic execution of the real mutators (z3), inductive step over enumerated directed shapes"),
  "C03": dict(level=MC, ref="5/C03",
-   text="Inductive step on SimplicialComplex from every downward-closed duplicate-free complex on <=3 (quick) / <=4 (thorough) vertices with symbolic labels, ids, members and max_order: closure, uniqueness, no empty simplex, two-way incidence, removal exactness, max_order respected; has_simplex exactness for a symbolic query on every shape.",
+   text="Inductive step on SimplicialComplex from every downward-closed duplicate-free complex on <=3 (quick) / <=4 (thorough) vertices with symbolic labels, ids, members and max_order: closure, uniqueness, no empty simplex, two-way incidence, removal exactness, max_order respected; has_simplex exactness for a symbolic query on every shape. Unhashable members and frozenset/bytes simplex ids are part of the alphabet (state after the raise); one open known finding (bulk call with an invalid later entry).",
    note="As C01. A large simplex (4-5 new vertices) under every max_order is driven by a dedicated op because general bulk arguments are bounded at 3 members.",
    technique="bounded symbolic execution of the real SimplicialComplex mutators (z3), inductive step over enumerated complexes"),
  "C04": dict(level=MC, ref="5/C04",
@@ -32,7 +32,7 @@ CHECKS = {
    note="As C01; the symbolic run pickles scount, itertools.count itself is pickled in the concrete replays.",
    technique="bounded symbolic execution (z3): derive, edit one side symbolically, compare snapshots"),
  "C18": dict(level=MC, ref="5/C18",
-   text="Structural mutators are discovered by concrete probing of every public callable of the three classes and the in-place library functions; then on every small shape, after freeze() and on subhypergraph() results, each discovered mutator (dedicated symbolic-argument ops plus a generic recipe call, keyword and positional) leaves the structural snapshot unchanged on every path, and whenever the identical call with identical symbolic arguments changes an equal unfrozen twin it raises the library's error; is_frozen stays True; copy() is unfrozen, equal and editable without touching the original. The mutator alphabet is the union of what probing finds on the current tree and the pinned public API, so a change that hides a signature cannot shrink it.",
+   text="Structural mutators are discovered by concrete probing of every public callable of the three classes and the in-place library functions; then on every small shape, after freeze() and on subhypergraph() results, each discovered mutator (dedicated symbolic-argument ops plus a generic recipe call, keyword and positional) leaves the structural snapshot unchanged on every path, and whenever the identical call with identical symbolic arguments changes an equal unfrozen twin it raises the library's error; is_frozen stays True; copy() is unfrozen, equal and editable without touching the original. The mutator alphabet is the union of what probing finds on the current tree and the pinned public API, so a change that hides a signature cannot shrink it. subhypergraph is also called with explicit selections (nodes [] or one solver-chosen label, edges None or one solver-chosen id, keep_isolates solver-chosen) before the mutators run on its result.",
    note="As C01; library error = XGIError or IDNotFound; a public callable without recipe is listed in the evidence.",
    technique="bounded symbolic execution (z3) with twin runs (same symbolic arguments on frozen net and unfrozen twin)"),
  "C19": dict(level=MC, ref="5/C19",
@@ -52,15 +52,15 @@ CHECKS = {
    note="As C01; rendered ids are modelled by SymStr (decimal rendering injective); networkx/pandas/numpy see proxy labels as opaque hashables.",
    technique="bounded symbolic execution (z3) of converter pairs with symbolic labels; bipartite-graph insertion orders enumerated"),
  "C13": dict(level=MC, ref="5/C13",
-   text="The real boundary_matrix and hodge_laplacian run on every downward-closed complex on <=4 vertices (thorough: plus the full 4-simplex) with one solver bit per simplex orientation, unbounded symbolic vertex labels (every label order through the reference sort) and symbolic simplex ids; one z3 query per matrix entry decides column support = faces, entries +-1, k+1 entries per column, B_{k-1}B_k = 0, and Laplacian = B_k^T B_k + B_{k+1} B_{k+1}^T and symmetric. A second harness assigns labels from a pool with strings, negative and multi-digit numbers (every injective assignment).",
-   note="numpy inside hodge_matrix is replaced by a dict-backed integer matrix during exploration; concrete replays use the real numpy. PSD and kernel dimension follow mathematically from the checked identities and are not separately decided.",
+   text="The real boundary_matrix and hodge_laplacian run on every downward-closed complex on <=4 vertices (thorough: plus the full 4-simplex) with one solver bit per simplex orientation, unbounded symbolic vertex labels (every label order through the reference sort) and symbolic simplex ids; one z3 query per matrix entry decides column support = faces, entries +-1, k+1 entries per column, B_{k-1}B_k = 0, and Laplacian = B_k^T B_k + B_{k+1} B_{k+1}^T and symmetric. A second harness assigns labels from a pool with strings, negative and multi-digit numbers (every injective assignment). C13.spectrum: on the integer matrices returned under real numpy, z3 decides over the reals that every Hodge Laplacian is positive semidefinite and that the kernel of L_0 is exactly the span of the connected-component indicators (orientation bits forked exhaustively up to 6 simplices).",
+   note="numpy inside hodge_matrix is replaced by a dict-backed integer matrix during exploration; concrete replays use the real numpy. PSD and the kernel of L_0 are decided separately by C13.spectrum on the concrete matrices (z3 over the reals).",
    technique="bounded symbolic execution (z3) of boundary_matrix with symbolic orientation bits, labels and ids; per-entry queries"),
  "C16": dict(level=MC, ref="5/C16",
-   text="The RNG is replaced by its contract (geometric(): any integer >= 1; random(): any real in [0,1); sample/choice: any selection), so the skip-sampling loops of fast_random_hypergraph, uniform_erdos_renyi_hypergraph, uniform_HSBM, chung_lu/dcsbm and the per-candidate draws of random_hypergraph, random_simplicial_complex and the flag complexes are explored for every subset of candidates (paths), with the structural promises asserted on every path (exact node set, edges inside nodes, exact/allowed sizes, no repeats where forbidden, p=0 -> none, p=1 -> all without error, configuration model within prescribed degrees, closure, exactly the cliques). The three index decoders are decided with two symbolic indices (range + injectivity, hence bijection by counting).",
+   text="The RNG is replaced by its contract (geometric(): any integer >= 1; random(): any real in [0,1); sample/choice: any selection), so the skip-sampling loops of fast_random_hypergraph, uniform_erdos_renyi_hypergraph, uniform_HSBM, chung_lu/dcsbm and the per-candidate draws of random_hypergraph, random_simplicial_complex and the flag complexes are explored for every subset of candidates (paths), with the structural promises asserted on every path (exact node set, edges inside nodes, exact/allowed sizes, no repeats where forbidden, p=0 -> none, p=1 -> all without error, configuration model within prescribed degrees, closure, exactly the cliques). The three index decoders are decided with two symbolic indices (range + injectivity, hence bijection by counting). watts_strogatz_hypergraph (rewiring, n=4, d=2): every rewired edge keeps exactly d nodes. Module-level integer constants >= 1000 of the generator modules (size thresholds) are solver integers, so code behind `n > THRESHOLD` is reachable on small inputs (none on the unchanged tree).",
    note="Parameter grids bounded to <=10 candidate indices per order; probabilities in {0, 0.5, 1}; deterministic generators (complete_hypergraph, flag complexes without probabilities) have no solver variable and are exhaustive concrete grids; distributional correctness is outside.",
    technique="bounded symbolic execution (z3) of generators under a nondeterministic RNG stub; symbolic-index decoders"),
  "C17": dict(level="other", ref="5/C17",
-   text="Seed determinism decided symbolically for the pure-Python consumers of random / numpy.random / geometric (22 seeded functions): each is executed twice in one path under stubs that name every draw R(stream, position); draws made after the function seeded a generator are shared solver variables, ambient draws are fresh ones, the seed is a solver integer (falsy seeds included) and z3 searches for draw values that make the two outputs differ. For functions that delegate to networkx only the forwarding of the seed is decided.",
+   text="Seed determinism decided symbolically for the pure-Python consumers of random / numpy.random / geometric (22 seeded functions): each is executed twice in one path under stubs that name every draw R(stream, position); draws made after the function seeded a generator are shared solver variables, ambient draws are fresh ones, the seed is a solver integer (falsy seeds included) and z3 searches for draw values that make the two outputs differ. For functions that delegate to networkx only the forwarding of the seed is decided. Mutable arguments are also passed as the same object to both calls (an argument modified by the first call is a different argument in the second); module-level integer constants >= 1000 of the generator/layout modules (size thresholds between two implementations) are solver integers in [0, value].",
    note="Reduced reach, stated: one small parameter tuple per function; networkx generators/layouts are stubbed (seed forwarding only); spectral_clustering (ARPACK start vector, float k-means) cannot be entered by the stubs and is outside the claim.",
    technique="bounded symbolic execution (z3) with stream-tagged uninterpreted RNG draws, two calls per path"),
  "C15": dict(level=MC, ref="5/C15",
@@ -72,11 +72,11 @@ CHECKS = {
    note="Reduced reach, stated: the solver quantifies labels, ids and attribute values; the bytes on disk are modelled by contract during exploration (real only in replays). String-level behaviour of split/strip/find on labels containing delimiter, comment or whitespace characters is excluded by the property itself; JSON representability of exotic value types and numpy float formatting are outside.",
    technique="bounded symbolic execution (z3) of the real file writers/readers with the file boundary as a contract stub; concrete replay through real files"),
  "C12": dict(level="other", ref="5/C12",
-   text="For every hypergraph shape within the bound (isolated nodes, empty/duplicate/singleton edges included) incidence, adjacency (weighted/thresholded by s), degree vector, intersection profile, clique-motif matrix, adjacency tensor, order-d, multi-order and normalised Laplacians are compared entrywise through their returned index maps with brute-force definitions; symmetry, zero diagonal, zero row sums; sparse equals dense for every argument combination; degenerate cases (no edges, none of the requested order). Node labels and edge ids are unbounded solver integers, order/s/flags are solver-chosen. Every shape is also reached through a history on one object (complementary incidence, every matrix function called once, then morphed through the public API with unchanged node and edge counts).",
+   text="For every hypergraph shape within the bound (isolated nodes, empty/duplicate/singleton edges included) incidence, adjacency (weighted/thresholded by s), degree vector, intersection profile, clique-motif matrix, adjacency tensor, order-d, multi-order and normalised Laplacians are compared entrywise through their returned index maps with brute-force definitions; symmetry, zero diagonal, zero row sums; sparse equals dense for every argument combination; degenerate cases (no edges, none of the requested order). Node labels and edge ids are unbounded solver integers, order/s/flags are solver-chosen. Every shape is also reached through a history on one object (complementary incidence, every matrix function called once, then morphed through the public API with unchanged node and edge counts). C12.psd: positive semidefiniteness of the order-d, multi-order (non-negative weights) and normalised Laplacians is decided by z3 (nlsat) over the reals on the matrix the library returned - the vector x is the solver variable; one open known finding (weighted normalised Laplacian).",
    note="Reduced reach, stated: the numeric kernels are scipy/numpy C code, so the solver quantifies only the labelling and the small integer/boolean parameters; shapes are enumerated. Positive semidefiniteness is not decided (follows from symmetry and the B^T B form).",
    technique="bounded symbolic execution (z3) over labels and parameters with enumerated shapes; brute-force matrix oracles"),
  "C14": dict(level="other", ref="5/C14",
-   text="Per shape (disconnected, isolated nodes, singletons, multi-edges, nested edges) with symbolic labels: connected components, is_connected, component count, largest component and a symbolic node's component against networkx on the node-edge bipartite graph; single-source shortest path lengths from a symbolic source against BFS in the clique expansion (inf exactly across components, symmetry); clustering coefficient against nx.clustering of the projection; to_graph, s-line graph with its three weight modes (s solver-chosen), bipartite graph and encapsulation DAG against definitions evaluated by the harness. Small shapes are also reached through a history on one object after every algorithm ran once on the complementary incidence.",
+   text="Per shape (disconnected, isolated nodes, singletons, multi-edges, nested edges) with symbolic labels: connected components, is_connected, component count, largest component and a symbolic node's component against networkx on the node-edge bipartite graph; single-source shortest path lengths from a symbolic source against BFS in the clique expansion (inf exactly across components, symmetry); clustering coefficient against nx.clustering of the projection; to_graph, s-line graph with its three weight modes (s solver-chosen), bipartite graph and encapsulation DAG against definitions evaluated by the harness. Small shapes are also reached through a history on one object after every algorithm ran once on the complementary incidence. C14.hub: a fixed ten-edge network under real hashing with pooled labels (edge ids mixing integers with a string, a tuple, a float; two arrangements in which one pair of edge ids iterates in opposite orders in two membership sets) through the same oracles.",
    note="Reduced reach, stated: shapes enumerated; the solver quantifies labels, source node, s, weight mode, subset_types. networkx is the independent oracle. Exact link set of the 'empirical' encapsulation DAG is outside.",
    technique="bounded symbolic execution (z3) of xgi's graph algorithms on symbolic labels against networkx on harness-built expansions"),
  "C08": dict(level="other", ref="5/C08",
@@ -84,7 +84,7 @@ CHECKS = {
    note="Reduced reach, stated: for branch-free callables this is one path per shape; callables that push labels into C code only run in the windowed concrete mode (the symbolic attempt is reported per callable in the evidence). Attribute records are live by design and are not edited; simulate_* and download functions are skipped by name.",
    technique="bounded symbolic execution (z3) + windowed label forking: snapshot-before = snapshot-after over an introspected API surface"),
  "C20": dict(level="other", ref="10.9",
-   text="The label-quantified part of the property, decided with node labels and edge ids as unbounded solver integers (plus a string-label mode) on every small Hypergraph / SimplicialComplex shape (isolated nodes, singleton, duplicate and nested edges): each of the nine layout functions returns exactly one finite 2-D position per node (the bipartite layout also one per edge) and for nothing else; edge_positions_from_barycenters places each edge at the mean of its members' positions; xgi.draw - run for real on the Agg backend with harness-supplied positions in convex position and a solver-chosen max_order - returns one marker per node at its position in node order, one line per two-node edge joining its two members, and one polygon per larger edge up to max_order whose vertex set is exactly its members' positions (SimplicialComplex: maximal simplices of >= 3 nodes as polygons, two-node simplices as lines); any exception on a drawable network is a violation.",
+   text="The label-quantified part of the property, decided with node labels and edge ids as unbounded solver integers (plus a string-label mode) on every small Hypergraph / SimplicialComplex shape (isolated nodes, singleton, duplicate and nested edges): each of the nine layout functions returns exactly one finite 2-D position per node (the bipartite layout also one per edge) and for nothing else; edge_positions_from_barycenters places each edge at the mean of its members' positions; xgi.draw - run for real on the Agg backend with harness-supplied positions in convex position and a solver-chosen max_order - returns one marker per node at its position in node order, one line per two-node edge joining its two members, and one polygon per larger edge up to max_order whose vertex set is exactly its members' positions (SimplicialComplex: maximal simplices of >= 3 nodes as polygons, two-node simplices as lines); any exception on a drawable network is a violation. C20.history: draw without positions, edit the same object (node set changes with and without a change of the node count), draw again: the second drawing succeeds and shows the current nodes and two-node edges.",
    note="Reduced reach, stated: coordinates are floats from numpy/networkx and artists are built by matplotlib, so geometry, finiteness and rendering are observed per path, not solver-decided; the solver quantifies labels, ids and max_order - every place where layout or drawing code looks a label up, compares it or uses it as a position. draw_bipartite, draw_multilayer, directed drawings, hull polygons, colours and sizes are outside.",
    technique="bounded symbolic execution (z3) of the real layout/draw code over symbolic labels with enumerated shapes; artists read back from matplotlib collections"),
 }
